@@ -43,6 +43,8 @@ MpFailed(e) ==
   ELSE IF ~e.back.ok THEN (IF e.back.fail = "panic" THEN {"C16.NoPanic"} ELSE IF LossyM(e.v, e.ty) THEN {"C16.RoundTrip.NullOrEmptyUnderNestedPlaceholder"} ELSE {"C16.UnmarshalAcceptsOwnEncoding"})
   ELSE (IF RtOK(e.v, e.back.val) THEN {}
         ELSE IF LossyM(e.v, e.ty) THEN {"C16.RoundTrip.NullOrEmptyUnderNestedPlaceholder"} ELSE {"C16.RoundTrip"})
+       \* an unknown number's own inclusive bounds are still admitted by the decoded range (a bound may be widened, never moved inward)
+       \cup (IF Has(e, "bi") /\ \E i \in 1..Len(e.bi) : e.bi[i].inc /\ e.bi[i].ans = "F" THEN {"C16.RoundTrip"} ELSE {})
        \cup (IF WhollyKnown(e.v) /\ e.eq # "T" /\ ~LossyM(e.v, e.ty) THEN {"C16.KnownValueComesBackEqual"} ELSE {})
        \cup (IF WellFormed(e.back.val) THEN {} ELSE {"C06.WellFormed"})
 =============================================================================
